@@ -212,6 +212,14 @@ type StreamOpts struct {
 	StartDB     int  // db selected at the start of the stream (-1: none, stream starts with SELECT)
 	FewBarriers bool // no MULTI/EXEC and no SELECT after the first one (nothing forces a flush)
 	MinCmds     int
+	DBMenu      []int // if set, the databases the stream switches between (instead of 0..DBs-1)
+}
+
+func pickDB(t *tape.Tape, o StreamOpts) int {
+	if len(o.DBMenu) > 0 {
+		return o.DBMenu[t.Choose(len(o.DBMenu))]
+	}
+	return t.Choose(o.DBs)
 }
 
 // GenStream draws a replication stream as a master would emit it.
@@ -291,7 +299,7 @@ func GenStream(t *tape.Tape, o StreamOpts) (cmds []Cmd, stream []byte) {
 		}
 	}
 	if curDB < 0 {
-		sel(t.Choose(o.DBs))
+		sel(pickDB(t, o))
 	}
 	n := 1 + t.Choose(o.MaxCmds)
 	if n < o.MinCmds {
@@ -306,7 +314,7 @@ func GenStream(t *tape.Tape, o StreamOpts) (cmds []Cmd, stream []byte) {
 		case r == 0 && !o.NoNoise:
 			add("ping", false, []byte([]string{"PING", "ping"}[t.Choose(2)]))
 		case r == 1:
-			sel(t.Choose(o.DBs))
+			sel(pickDB(t, o))
 		case r == 2 && !o.NoMulti:
 			add("multi", false, []byte("MULTI"))
 			k := t.Choose(4)
